@@ -151,18 +151,26 @@ func pfTable(cands []string) string {
 
 // ---------------------------------------------------------------- deep copy / canonical text
 
-func deepCopy(v interface{}) interface{} {
+// maxDepth bounds every traversal: a defect that makes a Map cyclic must not crash the harness.
+const maxDepth = 200
+
+func deepCopy(v interface{}) interface{} { return deepCopyD(v, 0) }
+
+func deepCopyD(v interface{}, d int) interface{} {
+	if d > maxDepth {
+		return "<<too deep or cyclic>>"
+	}
 	switch x := v.(type) {
 	case map[string]interface{}:
 		m := make(map[string]interface{}, len(x))
 		for k, e := range x {
-			m[k] = deepCopy(e)
+			m[k] = deepCopyD(e, d+1)
 		}
 		return m
 	case []interface{}:
 		l := make([]interface{}, len(x))
 		for i, e := range x {
-			l[i] = deepCopy(e)
+			l[i] = deepCopyD(e, d+1)
 		}
 		return l
 	}
